@@ -23,19 +23,25 @@ from . import c06
 PROP = "C10"
 
 
-def _used_queue(nr, nt, dt, preload):
+def _used_queue(nr, nt, dt, preload, reanchored=True):
     """A queue for a continued run: it holds the deliveries of `preload` (slot k = k*dt after the start).  When it holds
     any, it is a queue that has been in use: its ring was turned by a number of steps that is not a multiple of its
-    length and its clock was set back to 0 before the deliveries were entered - by DelayQueue.tla (the ring refines a
+    length, the deliveries were entered relative to its clock, and the simulator re-anchors that clock - by DelayQueue.tla (the ring refines a
     bag of (time, reaction) entries) indistinguishable from a fresh queue with the same entries."""
     from bioscrape.simulator import ArrayDelayQueue
     q = ArrayDelayQueue.setup_queue(nr, nt, dt)
+    turned = 0
     if preload and nt > 1:
-        for _ in range(1 + (len(preload) + sum(k for k, _, _ in preload)) % (nt - 1)):
+        turned = 1 + (len(preload) + sum(k for k, _, _ in preload)) % (nt - 1)
+        for _ in range(turned):
             q.py_advance_time()
+    if turned and not reanchored:
+        # the delay + volume simulator takes the queue's clock as it is: the caller sets it to the start time
         q.py_set_current_time(0.0)
+        turned = 0
     for k, rr, c in preload:
-        q.py_add_reaction(k * dt, rr - 1, float(c))
+        # the queue's clock stands at turned*dt; DelaySSASimulator sets it to the first requested time when it takes the queue
+        q.py_add_reaction((turned + k) * dt, rr - 1, float(c))
     return q
 
 
@@ -232,7 +238,7 @@ def impl_replay_dv(job):
             else:
                 itf = SafeModelCSimInterface(m) if rec["safe"] else ModelCSimInterface(m)
                 itf.py_set_dt(dt)
-                q = _used_queue(nr, nt, dt, rec.get("preload", []))
+                q = _used_queue(nr, nt, dt, rec.get("preload", []), reanchored=False)
                 r = DelayVolumeSSASimulator().py_delay_volume_simulate(itf, q, vol, tp)
             used, _, under = brandom.py_verif_script_status()
             brandom.py_verif_script(None)
